@@ -104,7 +104,7 @@ def check(rep, tier, seed):
     vcf = render_vcf(cols, recs)
     bcf_raw = vcf_to_bcf(vcf, "c18", "raw")
     files = {"vcf": vcf, "vcf.gz": bgzf_compress(vcf), "vcf.gz-smallblocks": bgzf_compress(vcf, sizes=[97, 31, 200], empty_every=3),
-             "vcf.gz-noeof": bgzf_compress(vcf, eof=False)}
+             "vcf.gz-noeof": bgzf_compress(vcf, eof=False), "vcf.gz-emptyfirst": bgzf_compress(vcf, sizes=[1, 2, 300], empty_first=True)}
     if bcf_raw:
         files["bcf-raw"] = bcf_raw
         files["bcf"] = bgzf_compress(bcf_raw, sizes=[500])
